@@ -82,14 +82,23 @@ func esApply(s *MemoryEventStore, toks []string) (obs string) {
 		var d []byte
 		fmt.Sscanf(toks[7], "x%x", &d)
 		out := []string{"items"}
-		n, done := 0, false
+		n, done, locked := 0, false, false
 		inject := func() {
 			if !done {
 				done = true
+				// an iterator that delivers while holding the store's lock would deadlock the append
+				if !s.mu.TryLock() {
+					locked = true
+					return
+				}
+				s.mu.Unlock()
 				s.Append(ctx, toks[5], toks[6], d)
 			}
 		}
 		for it, err := range s.After(ctx, toks[1], toks[2], idx) {
+			if locked {
+				return "delivery-holds-lock"
+			}
 			if err != nil {
 				inject()
 				if errors.Is(err, ErrEventsPurged) {
@@ -105,6 +114,9 @@ func esApply(s *MemoryEventStore, toks []string) (obs string) {
 			if n == k {
 				inject()
 			}
+		}
+		if locked {
+			return "delivery-holds-lock"
 		}
 		inject()
 		return strings.Join(out, " ")
@@ -577,21 +589,84 @@ func esIterTags(toks []string, obs string) []string {
 	return tags
 }
 
-// esConcurrent: 8 goroutines hammer one store (run under -race in the thorough tier); afterwards the
-// store must still satisfy the sequential contract for a final sequence of reads: every stream's
-// After(-1) is either purged or a suffix-consistent list, and the accounting matches the data.
+// esConcurrent: 8 goroutines hammer one store (run under -race in the thorough tier) with random operations
+// (including `iter` records: calls from inside iterations, cancelled contexts); every goroutine also owns a
+// PRIVATE session nobody else touches: whatever the others do (their appends purge its items too), every After
+// on it must be the purge error (only if something lies after the index) or exactly what the goroutine itself
+// appended after the index as of the start of the iteration (concurrent_after_exact,
+// iterator_snapshot_independent_of_later_ops), also when the goroutine appends from inside the iteration.
+// Afterwards the accounting must match the data.
 func esConcurrent(t *testing.T, out *verifOut) {
 	for round := 0; round < 20; round++ {
 		s := NewMemoryEventStore(nil)
 		s.SetMaxBytes(64)
 		var wg sync.WaitGroup
+		var mu sync.Mutex
+		bad := ""
 		for gi := 0; gi < 8; gi++ {
 			wg.Add(1)
 			go func(gi int) {
 				defer wg.Done()
 				rng := verifRng(int64(1_000_000 + round*100 + gi))
 				g := &esGen{rng: rng, limit: 64, count: map[string]int{}, noDeadline: true}
+				sess := fmt.Sprintf("p%d", gi)
+				var log [][]byte
+				ctx := context.Background()
+				priv := func() string {
+					if rng.Intn(5) < 3 {
+						d := []byte{byte(gi), byte(len(log)), byte(len(log) >> 8)}[:1+rng.Intn(3)]
+						s.Append(ctx, sess, "a", d)
+						log = append(log, d)
+						return ""
+					}
+					idx := rng.Intn(len(log)+2) - 1
+					want := [][]byte{}
+					if idx+1 < len(log) {
+						want = append(want, log[idx+1:]...)
+					}
+					known := len(log) > 0
+					var got [][]byte
+					for d, err := range s.After(ctx, sess, "a", idx) {
+						if err != nil {
+							if errors.Is(err, ErrEventsPurged) && len(got) == 0 && len(want) > 0 {
+								return ""
+							}
+							if !errors.Is(err, ErrEventsPurged) && !known && len(got) == 0 {
+								return ""
+							}
+							return fmt.Sprintf("After(%s,a,%d) yielded %v after %d items; %d payloads lie after the index", sess, idx, err, len(got), len(want))
+						}
+						got = append(got, d)
+						if len(got) == 1 && rng.Intn(2) == 0 { // from inside the iteration
+							d2 := []byte{byte(gi), byte(len(log)), 0xff}
+							s.Append(ctx, sess, "a", d2)
+							log = append(log, d2)
+						}
+					}
+					if !known {
+						return fmt.Sprintf("After(%s,a,%d) on a stream that was never created ended without an error", sess, idx)
+					}
+					if len(got) != len(want) {
+						return fmt.Sprintf("After(%s,a,%d) delivered %d payloads and ended without an error; %d lie after the index", sess, idx, len(got), len(want))
+					}
+					for i := range got {
+						if string(got[i]) != string(want[i]) {
+							return fmt.Sprintf("After(%s,a,%d) item %d = x%x, appended x%x", sess, idx, i, got[i], want[i])
+						}
+					}
+					return ""
+				}
 				for i := 0; i < 300; i++ {
+					if i%3 == 2 {
+						if msg := priv(); msg != "" {
+							mu.Lock()
+							if bad == "" {
+								bad = msg
+							}
+							mu.Unlock()
+						}
+						continue
+					}
 					esApply(s, strings.Fields(g.next()))
 				}
 			}(gi)
@@ -601,6 +676,8 @@ func esConcurrent(t *testing.T, out *verifOut) {
 		obs := "consistent"
 		if n != r {
 			obs = fmt.Sprintf("inconsistent nBytes=%d retained=%d", n, r)
+		} else if bad != "" {
+			obs = "inconsistent private-stream: " + bad
 		}
 		out.line(fmt.Sprintf("conc%d", round), "concurrent-accounting", obs, "concurrent")
 	}
